@@ -117,6 +117,12 @@ def extract():
             problems.append(([key], "%s: pattern not found: %r" % (key, e)))
             t[key] = dflt
     try:
+        t.update(_export_builtin_params())
+    except Exception as e:
+        problems.append((["exportStaticFallbackFor", "exportStaticFallbackUnless"],
+                         "exportStaticFallback: pattern not found: %r" % e))
+        t.update({"exportStaticFallbackFor": [], "exportStaticFallbackUnless": []})
+    try:
         t.update(_export_ref_value())
     except Exception as e:
         problems.append((["exportRefValueOrder", "exportLiteralTypes", "exportLiteralTest"],
@@ -237,6 +243,7 @@ def _export_dummy_for():
     fn = _method(cls, "_get_class_def")
     res = []
     collected = []       # containers that feed the list `names`
+    params_walk = False
     for st in fn.body:
         src = _src_of(st)
         if isinstance(st, ast.Assign) and _src_of(st.targets[0]) == "names":
@@ -245,6 +252,11 @@ def _export_dummy_for():
                 raise ValueError("unknown initial value of names: " + src)
             collected.append(m[0])
         elif isinstance(st, ast.Expr) and src.startswith("names.extend("):
+            if src == "names.extend(params)":
+                if not params_walk:
+                    raise ValueError("names.extend(params) before the walk that collects params")
+                collected.append("params")
+                continue
             m = [c for c in ("refs", "cells", "spaces")
                  if src == "names.extend((k for k in space.%s if k[0] != '_'))" % c]
             if not m:
@@ -257,6 +269,16 @@ def _export_dummy_for():
             if not ok:
                 raise ValueError("unknown parameter walk: " + src)
             collected.append("params")
+        elif isinstance(st, ast.While) and "params.extend" in src:
+            # since fix 28e12dc the parameters are collected in a list of their own (`params`), which is then
+            # appended to `names` (and also feeds the class-level fall-backs, see _export_builtin_params)
+            ok = (_src_of(st.test) == "isinstance(parent, BaseSpace)"
+                  and [_src_of(b) for b in st.body] ==
+                  ["if parent.parameters:\n    params.extend(parent.parameters)", "parent = parent.parent"]
+                  and any(_src_of(x) == "params = []" for x in fn.body))
+            if not ok:
+                raise ValueError("unknown parameter walk: " + src)
+            params_walk = True
         elif isinstance(st, ast.For) and "lines.append(k + ' = None')" in src:
             it = _src_of(st.iter)
             if it == "dict.fromkeys(names)":
@@ -271,6 +293,49 @@ def _export_dummy_for():
     if not res:
         raise ValueError("no dummy assignment loop")
     return res
+
+
+def _export_builtin_params():
+    """the class-level fall-backs of SpaceTranslator._get_class_def (fix 28e12dc): one line `k = k` in the class
+    body - the class attribute is bound to the BUILT-IN of the name - for every name of `exportStaticFallbackFor`
+    that is a built-in and is in none of the containers `exportStaticFallbackUnless`.  Before the fix: no such
+    statement, both tables empty."""
+    cls = _class(_parse("modelx/export/exporter.py"), "SpaceTranslator")
+    fn = _method(cls, "_get_class_def")
+    st = [x for x in fn.body if isinstance(x, ast.Assign) and _src_of(x.targets[0]) == "builtin_params"]
+    if not st:
+        if "builtin_params" in _src_of(fn):
+            raise ValueError("builtin_params is used but not assigned by one statement")
+        return {"exportStaticFallbackFor": [], "exportStaticFallbackUnless": []}
+    if len(st) != 1 or not isinstance(st[0].value, ast.ListComp):
+        raise ValueError("unknown form of builtin_params")
+    lc = st[0].value
+    if _src_of(lc.elt) != "k + ' = ' + k" or len(lc.generators) != 1:
+        raise ValueError("unknown element of builtin_params: " + _src_of(lc.elt))
+    gen = lc.generators[0]
+    if _src_of(gen.target) != "k" or _src_of(gen.iter) != "dict.fromkeys(params)" or len(gen.ifs) != 1:
+        raise ValueError("unknown source of builtin_params: " + _src_of(gen.iter))
+    test = gen.ifs[0]
+    if not (isinstance(test, ast.BoolOp) and isinstance(test.op, ast.And)) or \
+            _src_of(test.values[0]) != "hasattr(builtins, k)":
+        raise ValueError("unknown test of builtin_params: " + _src_of(test))
+    unless = []
+    for v in test.values[1:]:
+        m = [c for c in ("cells", "refs", "spaces") if _src_of(v) == "k not in space.%s" % c]
+        if not m:
+            raise ValueError("unknown exclusion in builtin_params: " + _src_of(v))
+        unless.append(m[0])
+    # the lines must reach the class body: a placeholder of that name in the class template, before `__init__`
+    tmpl = None
+    for node in cls.body:
+        if isinstance(node, ast.Assign) and _src_of(node.targets[0]) == "class_template":
+            for sub in ast.walk(node.value):
+                if isinstance(sub, ast.Constant) and isinstance(sub.value, str):
+                    tmpl = sub.value
+    if not tmpl or "{builtin_params}" not in tmpl or \
+            not (tmpl.index("class _c_{name}") < tmpl.index("{builtin_params}") < tmpl.index("def __init__")):
+        raise ValueError("builtin_params does not reach the class body")
+    return {"exportStaticFallbackFor": ["params"], "exportStaticFallbackUnless": unless}
 
 
 _FINITE_GUARD = " and (not (type(value) is float and (not math.isfinite(value))))"
@@ -598,6 +663,8 @@ def render(t):
         "def exportCallLoop : List String := " + _lean_str_list(t["exportCallLoop"]),
         "def exportReplaceOrder : List String := " + _lean_str_list(t["exportReplaceOrder"]),
         "def exportDummyFor : List String := " + _lean_str_list(t["exportDummyFor"]),
+        "def exportStaticFallbackFor : List String := " + _lean_str_list(t["exportStaticFallbackFor"]),
+        "def exportStaticFallbackUnless : List String := " + _lean_str_list(t["exportStaticFallbackUnless"]),
         "def mxNamespaceOrder : List String := " + _lean_str_list(t["mxNamespaceOrder"]),
         "def mxDynRefsOrder : List String := " + _lean_str_list(t["mxDynRefsOrder"]),
         "def mxAllargsOrder : List String := " + _lean_str_list(t["mxAllargsOrder"]),
